@@ -80,8 +80,13 @@ def scan_problem(d):
             return "box %d does not find its domain at its offset" % k
         layer = lboxes[k]
         left, lbox, right = layer._left, layer._box, layer._right
-        if lbox is not box and lbox != box:
-            return "layer %d holds another box" % k
+        if lbox is not box:
+            try:
+                other = bool(lbox != box)
+            except ValueError:          # == on numpy payloads is not a boolean
+                other = repr(lbox) != repr(box)
+            if other:
+                return "layer %d holds another box" % k
         if _objs(left) != scan[:off]:
             return "layer %d left wires disagree with the scan" % k
         if _objs(right) != scan[off + n:]:
